@@ -1066,10 +1066,10 @@ def wb_last_token_info(I, callee, args, st, n, fidx):
     if le is not None:
         ch, ty, ep = le
         v = Enum("buffer::TokenInfo", [], {"channel": ch, "token_type": ty})
-        I.emit(st, "lookbehind", n, accessor=kind, own=True, value=v)
+        I.emit(st, "lookbehind", n, accessor=kind, own=True, value=v, epoch=st.tokens_epoch)
         return val(some(v), st)
     t = Term("prev_token:" + kind, (Const("int", st.tokens_epoch),), "Option<&TokenInfo>")
-    I.emit(st, "lookbehind", n, accessor=kind, own=False, value=t)
+    I.emit(st, "lookbehind", n, accessor=kind, own=False, value=t, epoch=st.tokens_epoch)
     return val(t, st)
 
 
@@ -1078,7 +1078,7 @@ def wb_last_token_info_mut(I, callee, args, st, n, fidx):
     default_only = callee.endswith("on_default_channel_mut")
     kind = "default" if default_only else "any"
     le = last_emitted(st, default_only)
-    I.emit(st, "lookbehind_mut", n, accessor=kind, own=le is not None, value=le)
+    I.emit(st, "lookbehind_mut", n, accessor=kind, own=le is not None, value=le, epoch=st.tokens_epoch)
     ref = LRef(("lasttok", kind))
     if le is not None:
         return val(some(ref), st)
